@@ -228,3 +228,81 @@ def arg(call: ast.Call, pos: int, name: Optional[str] = None) -> Optional[ast.AS
     if name:
         return kw(call, name)
     return None
+
+
+class _Subst(ast.NodeTransformer):
+    def __init__(self, env, depth=0):
+        self.env = env
+        self.depth = depth
+
+    def visit_Name(self, node):
+        if isinstance(node.ctx, ast.Load) and node.id in self.env and self.env[node.id] is not None and self.depth < 25:
+            import copy
+            sub = {k: v for k, v in self.env.items() if k != node.id}
+            return _Subst(sub, self.depth + 1).visit(copy.deepcopy(self.env[node.id]))
+        return node
+
+
+def inline_locals(expr: ast.AST, env: Dict[str, ast.AST]) -> ast.AST:
+    """A copy of expr with single-assignment locals replaced by their defining expressions."""
+    import copy
+    return ast.fix_missing_locations(_Subst(env).visit(copy.deepcopy(expr)))
+
+
+def single_return_expr(func: ast.AST) -> Optional[ast.AST]:
+    """The returned expression of a function that has exactly one `return E` (locals inlined), else None."""
+    rets = [n for n in body_walk(func) if isinstance(n, ast.Return)]
+    if len(rets) != 1 or rets[0].value is None:
+        return None
+    return inline_locals(rets[0].value, local_env(func))
+
+
+def class_inline_env(index, cls, selfname: str = "self") -> Dict[str, ast.AST]:
+    """'self.m' (properties / cached properties) and 'self.m()' (argument-less methods) -> their single returned expression."""
+    env: Dict[str, ast.AST] = {}
+    for c in reversed(index.mro(cls)):
+        for name, fi in c.methods.items():
+            a = fi.node.args
+            if len(a.args) != 1 or a.vararg or a.kwarg or a.kwonlyargs:
+                continue
+            e = straightline_return(fi.node)
+            if e is None:
+                e = single_return_expr(fi.node)
+            if e is None:
+                continue
+            decs = " ".join(fi.decorators)
+            if "property" in decs:
+                env[f"{selfname}.{name}"] = e
+            else:
+                env[f"{selfname}.{name}()"] = e
+    return env
+
+
+def straightline_return(func: ast.AST) -> Optional[ast.AST]:
+    """Returned expression of a function whose body is straight-line (assignments, asserts, docstring, one final return):
+    assignments are applied in order, so re-bound names are handled.  None if the body has control flow."""
+    env: Dict[str, ast.AST] = {}
+    body = list(func.body)
+    for s in body:
+        if isinstance(s, ast.Expr) and isinstance(s.value, ast.Constant):
+            continue
+        if isinstance(s, ast.Assert):
+            continue
+        if isinstance(s, ast.Assign) and len(s.targets) == 1:
+            t = s.targets[0]
+            v = inline_locals(s.value, env)
+            if isinstance(t, ast.Name):
+                env[t.id] = v
+                continue
+            if isinstance(t, (ast.Tuple, ast.List)) and all(isinstance(e, ast.Name) for e in t.elts):
+                for i, e in enumerate(t.elts):
+                    if isinstance(v, (ast.Tuple, ast.List)) and len(v.elts) == len(t.elts):
+                        env[e.id] = v.elts[i]
+                    else:
+                        env[e.id] = ast.Subscript(value=v, slice=ast.Constant(value=i), ctx=ast.Load())
+                continue
+            return None
+        if isinstance(s, ast.Return) and s.value is not None:
+            return inline_locals(s.value, env)
+        return None
+    return None
